@@ -51,8 +51,10 @@ namespace pika {
         while (flag.status_.load(std::memory_order_acquire) != function_complete_flag_value)
         {
             long status = 0;
+            PIKA_VERIF_POINT(52, &flag);
             if (flag.status_.compare_exchange_strong(status, running_value))
             {
+                PIKA_VERIF_POINT(53, &flag);
                 try
                 {
                     // reset event to ensure its usability in case the
